@@ -88,3 +88,37 @@ func short(x interface{}, n int) string {
 	}
 	return s
 }
+
+// retained remembers slices returned by earlier library calls of this worker together with their
+// content hash; check reports whether any of them was changed by a later call (a returned slice
+// must not alias state the library reuses).
+type retained struct {
+	i32  [][]int32
+	hash []uint64
+}
+
+func hashI32s(v []int32) uint64 {
+	h := uint64(len(v)) + 0x9e37
+	for _, x := range v {
+		h = h*0x100000001b3 ^ uint64(uint32(x))
+	}
+	return h
+}
+
+// keep adds slices (ring of 9) and returns the index of an earlier slice whose content changed, or -1.
+func (r *retained) keep(vs ...[]int32) int {
+	bad := -1
+	for k, v := range r.i32 {
+		if hashI32s(v) != r.hash[k] {
+			bad = k
+		}
+	}
+	for _, v := range vs {
+		if len(r.i32) >= 9 {
+			r.i32, r.hash = r.i32[1:], r.hash[1:]
+		}
+		r.i32 = append(r.i32, v)
+		r.hash = append(r.hash, hashI32s(v))
+	}
+	return bad
+}
